@@ -41,14 +41,21 @@ struct Ledger {
     static Ledger &get() { static Ledger l; return l; }
 };
 
-inline int free_tcp_port() {
-    int fd = ::socket(AF_INET, SOCK_STREAM, 0);
-    sockaddr_in a{}; a.sin_family = AF_INET; a.sin_addr.s_addr = htonl(INADDR_LOOPBACK); a.sin_port = 0;
-    ::bind(fd, (sockaddr *)&a, sizeof a);
-    socklen_t l = sizeof a; getsockname(fd, (sockaddr *)&a, &l);
-    int p = ntohs(a.sin_port);
-    ::close(fd);
-    return p;
+// A port for the embedded HTTP server, taken from below the ephemeral range: the harness clients open thousands of
+// connections per second from ephemeral local ports (several processes at once), so a port probed with bind(0) is likely to be
+// handed to one of them before the service binds it.
+inline int free_tcp_port(int salt = 0) {
+    static int counter = 0;
+    for (int t = 0; t < 200; t++) {
+        int p = 20000 + (int)(((long)getpid() * 7 + (long)(counter++) * 131 + (long)salt * 977) % 12000);
+        int fd = ::socket(AF_INET, SOCK_STREAM, 0);
+        int one = 1; setsockopt(fd, SOL_SOCKET, SO_REUSEADDR, &one, sizeof one);
+        sockaddr_in a{}; a.sin_family = AF_INET; a.sin_addr.s_addr = htonl(INADDR_LOOPBACK); a.sin_port = htons(p);
+        int r = ::bind(fd, (sockaddr *)&a, sizeof a);
+        ::close(fd);
+        if (r == 0) return p;
+    }
+    return 0;
 }
 
 class Fixture {
@@ -68,7 +75,7 @@ public:
         std::string tag = std::to_string(getpid()) + "-" + std::to_string(++instance());
         scgi_path = dir + "/s" + tag + ".sock"; fcgi_path = dir + "/f" + tag + ".sock";
         for (int attempt = 0; attempt < 8; attempt++) {
-            http_port = free_tcp_port();
+            http_port = free_tcp_port(attempt);
             std::ostringstream cfg;
             cfg << "{ \"service\": { \"list\": [";
             bool first = true;
